@@ -604,18 +604,28 @@ func model(cs Case) *big.Int {
 // ---------------------------------------------------------------------------
 // run.
 
-// coarseSign maps the fine operand classes to the ones used in signatures:
-// pos (zero included), neg (minimum and both spellings included), top
-// (unsigned, most significant bit set).
+// coarseSign maps an operand to the class used in signatures: neg (minimum
+// and both spellings included); top (unsigned, most significant bit of the
+// type set); p32 / p64 (non-negative value of bit length exactly 32 / 64 in
+// a wider type: the most significant bit of the constant's own 32/64-bit
+// size is set); big (bit length above 64); pos (all other non-negative
+// values, zero included).
 func coarseSign(l Lit, kind string, bits int) string {
 	switch c := signClass(l, kind, bits); c {
-	case "zero", "pos":
-		return "pos"
 	case "neg", "min", "uneg", "umin":
 		return "neg"
-	default:
+	case "top", "true", "false":
 		return c
 	}
+	switch n := parse(l.V).BitLen(); {
+	case n > 64:
+		return "big"
+	case n == 64 && bits > 64:
+		return "p64"
+	case n == 32 && bits > 32:
+		return "p32"
+	}
+	return "pos"
 }
 
 // ctxClass groups the consuming contexts: value (the folded value is
